@@ -319,7 +319,8 @@ def rule_r4(F, rep):
     readers = set()
     for adt, fld in ((LAYER, "locals"), (FIELD, "expr")):
         try:
-            rs = cg.who_reads_field(F, adt, fld, crates=("rsjsonnet_lang",))
+            # raw: a helper that reads the expression and allocates the thunk is itself the creator to be guarded
+            rs = cg.who_reads_field(F, adt, fld, crates=("rsjsonnet_lang",), raw=True)
         except Exception:
             rs = []
         for fn, bb, si, st in rs:
